@@ -12,6 +12,7 @@ file. Where the unchanged code loses data the negation is proved from a closed w
   `C03_covdir_file_found_partial`; what the document holds in general is `C03_covdir_document`.
 -/
 import GrcovModel.Lemmas.WritersDocs
+import GrcovModel.Lemmas.StatsListed
 import GrcovModel.Props.C05
 namespace Grcov.Props.C03
 open Grcov AList Grcov.Writers Grcov.Writers.Docs Grcov.UPath
@@ -172,6 +173,20 @@ theorem C03_covdir_results_partial (oc : Bool) (rs : List Res) (t : Docs.Tree) (
       simp only [Option.some.injEq] at hrp
       subst hrp
       exact ⟨ds, f, rfl, htb ▸ C03_covdir_file_found_partial ps g _ hp⟩
+
+/-- the guard is the one C13's report-level sums need (`Stats.PGuard` on the same placements) -/
+theorem C03_covdir_guard_is_C13_guard (ps : List ((List Name × Name) × List Int)) :
+    CdGuard ps ↔ Grcov.Stats.PGuard (ps.map (·.1)) := by
+  constructor
+  · intro g
+    refine ⟨g.distinct, ?_⟩
+    intro p hp p' hp'
+    obtain ⟨q, hq, rfl⟩ := List.mem_map.mp hp
+    obtain ⟨q', hq', rfl⟩ := List.mem_map.mp hp'
+    exact g.noFileDir q hq q' hq'
+  · intro g
+    exact ⟨g.distinct, fun p hp p' hp' =>
+      g.noFileDir p.1 (List.mem_map.mpr ⟨p, hp, rfl⟩) p'.1 (List.mem_map.mpr ⟨p', hp', rfl⟩)⟩
 
 def C03_covdir_found_stmt : Prop :=
   ∀ (ps : List ((List Name × Name) × List Int)) (p : (List Name × Name) × List Int), p ∈ ps →
